@@ -64,6 +64,12 @@ def lake_build(targets, timeout=3000):
     return r.returncode == 0, r.stdout + r.stderr, time.time() - t
 
 
+def prop_targets(pid):
+    """lake targets of a property: every module an obligation lives in, plus the driver"""
+    mods = sorted({o["module"] for o in obligations(pid)} | {"SafeC.Props.%s" % pid})
+    return mods + ["safec_model"]
+
+
 def obligations(pid):
     p = os.path.join(LEAN, "obligations.json")
     if not os.path.exists(p):
